@@ -171,9 +171,10 @@ func init() {
 			}
 		}
 		r.Bound = map[string]interface{}{"fault_placements": len(faults), "operator_stacks": len(c06Stacks), "modes": modes, "cases": len(cases)}
-		r.Rule = "fault menu {panic() reached only at row i, failed type assertion at row i, malformed JSON line i, CSV row i with a wrong field count, JSON line i longer than files.json.max_line_size_bytes, lines row longer than 64 KiB} x row position {first, middle, last reachable at run time; input faults sit beyond the 100-row schema preview} x file sizes x 22 operator stacks above the fault (none, WHERE, projection, DISTINCT, ORDER BY, GROUP BY (+trigger), subquery, both sides of JOIN / LEFT JOIN / LOOKUP JOIN, IN-subquery expression, depth-2 combinations) x output modes, through the real root command: the run must end with a reported error; plus, on the real join nodes, an input that fails while the join loop is a full channel buffer (10 000 messages) behind a busy consumer; non-trivial = every case (a fault is always reachable)"
+		r.Rule = "fault menu {panic() reached only at row i, failed type assertion at row i, malformed JSON line i, CSV row i with a wrong field count, JSON line i longer than files.json.max_line_size_bytes, lines row longer than 64 KiB} x row position {first, middle, last reachable at run time; input faults sit beyond the 100-row schema preview} x file sizes x 22 operator stacks above the fault (none, WHERE, projection, DISTINCT, ORDER BY, GROUP BY (+trigger), subquery, both sides of JOIN / LEFT JOIN / LOOKUP JOIN, IN-subquery expression, depth-2 combinations) x output modes, through the real root command: the run must end with a reported error; plus, on the real join nodes, an input that fails while the join loop is a full channel buffer (10 000 messages) behind a busy consumer, and (hook H1, every interleaving, four join kinds) an input failing at every position of a script of <=2 events next to an input that is empty or sends one event; non-trivial = every case (a fault is always reachable)"
 		r.Assume("LIMIT above the fault is excluded (stopping before the bad row is legitimate)", "the in-process entry point returns exactly the error that makes the binary exit non-zero; each distinct violating (fault kind, stack) is confirmed on the real binary", "a Go panic instead of an error is C07's business and is not counted here")
 		c06Backlog(r) // node-level scenario: an input of a join fails while the join loop is a full buffer behind
+		c06Joins(r)   // node-level, every interleaving: a failing input next to an empty / one-event input, four join kinds
 		confirmed := map[string]bool{}
 		enum.Parallel(len(cases), func(i int) {
 			if r.TimeUp() {
